@@ -45,6 +45,10 @@ func writeIfChanged(path string, content string) error {
 
 var executors = map[string]func(args []string) string{}
 
+// sub-commands registered by other files (translators that need the compiled repository):
+// fitharness <name> <args...>; a non-nil error exits 1.
+var subcommands = map[string]func(args []string) error{}
+
 func execLine(line string) (out string) {
 	defer func() {
 		if r := recover(); r != nil {
@@ -139,6 +143,14 @@ func main() {
 			os.WriteFile(*statsFile, b, 0o644)
 		}
 	default:
+		if sc, ok := subcommands[mode]; ok {
+			if err := sc(os.Args[2:]); err != nil {
+				w.Flush()
+				fmt.Fprintln(os.Stderr, mode+":", err)
+				os.Exit(1)
+			}
+			return
+		}
 		fmt.Fprintln(os.Stderr, "unknown mode", mode)
 		os.Exit(2)
 	}
